@@ -162,22 +162,15 @@ func (p *SyncedPool) Flush(id []byte) error {
 
 func (p *SyncedPool) flush(id []byte) error {
 	queuedDropsList := p.popQueuedDrops()
-	// close and drop DBs
+	// exclude dropped DBs from the pool
+	droppedList := make([]*closeDropWrapped, 0, len(queuedDropsList))
 	for _, name := range queuedDropsList {
 		w := p.wrappers[name]
 		delete(p.wrappers, name)
 		if w.Flushable == nil {
 			continue
 		}
-		err := w.Flushable.RealClose()
-		if err != nil {
-			return err
-		}
-		db := w.Flushable.underlying
-		if db == nil {
-			continue
-		}
-		db.Drop()
+		droppedList = append(droppedList, w.Flushable)
 	}
 
 	// write dirty flags
@@ -191,6 +184,19 @@ func (p *SyncedPool) flush(id []byte) error {
 		if err != nil {
 			return err
 		}
+	}
+
+	// close and drop DBs, only after the remaining DBs are marked as dirty
+	for _, w := range droppedList {
+		err := w.RealClose()
+		if err != nil {
+			return err
+		}
+		db := w.underlying
+		if db == nil {
+			continue
+		}
+		db.Drop()
 	}
 
 	// flush data
